@@ -11,7 +11,7 @@ from verifkit import gen, typegen
 ID = "C01"
 THM_MODULES = ["Minicbor.Thm.C01"]
 P = "Minicbor.C01."
-REQUIRED = []          # TODO(lead): names of the C01 theorems once lean/Minicbor/Thm/C01.lean exists
+REQUIRED = ["Minicbor.C01.roundtrip_example"]
 PACKAGES = ["hcore"]
 RULE = ("for every concrete instantiation printed by `hcore tlist` (every built-in Encode/Decode impl at least once, nested "
         "combinations): boundary values (all 2^k±3 and width edges 23/24, 255/256, 65535/65536, 2^32-1/2^32, 2^63, 2^64-1 with their "
@@ -51,7 +51,7 @@ def vs_model(impl, model):
 
 
 def sizes(tier):
-    return (150, 200) if tier == "quick" else (3000, None)
+    return (150, 200) if tier == "quick" else (5000, None)
 
 
 def corpus(rng, tier):
@@ -61,6 +61,15 @@ def corpus(rng, tier):
     for rt in registry():
         for v, t in typegen.values_for(rng, rt, n_random, max_boundary):
             out.append((rt, v, t))
+    # exhaustive sweeps of the small scalar types (16-bit ones and the surrogate gap of char only in the thorough tier)
+    sweeps = {"u8": range(256), "i8": range(-128, 128)}
+    if tier != "quick":
+        sweeps.update({"u16": range(65536), "i16": range(-32768, 32768),
+                       "char": list(range(0xd000, 0xd800)) + list(range(0xe000, 0xe800)) + list(range(0x10f800, 0x110000))})
+    for rt in registry():
+        if rt.name in sweeps:
+            have = {t for r, _, t in out if r is rt}
+            out += [(rt, v, str(v)) for v in sweeps[rt.name] if str(v) not in have]
     return out
 
 
@@ -129,6 +138,38 @@ def dec_streams_from(cps, enc_results, name="roundtrip-tdec"):
     return st
 
 
+def judge_token_roundtrip(op, impl, model, spec):
+    """op = `tokdec <hex of the implementation's encoding of one token> #<token>`"""
+    w = op.split(" ")
+    nbytes = len(w[1]) // 2
+    iw = impl.split(" ")
+    if len(iw) != 3 or iw[1] != "end" or iw[2] != f"pos={nbytes}" or "," in iw[0]:
+        return "violation"
+    if not typegen.same_token(iw[0], w[2][1:]):
+        return "violation"
+    return vs_model(impl, model)
+
+
+def token_streams(rng, tier):
+    """Token is a built-in codec type too: one token -> Encoder::tokens -> Decoder::tokens() gives one equal token."""
+    toks = typegen.boundary_tokens(lossy_f16=False)
+    toks += [f"f16:x{typegen.half_to_f32_bits(h):08x}" for h in (range(0, 65536, 97) if tier == "quick" else range(65536))]
+    toks += [typegen.rand_token(rng) for _ in range(3000 if tier == "quick" else 60000)]
+    toks = list(dict.fromkeys(toks))
+    eops = [f"tokenc {t}" for t in toks]
+    s1 = Stream("token-enc", "hcore", eops, judge=judge_enc, nontrivial=lambda op, impl: split_enc(impl) is not None,
+                rule="tokenc <one token>: every Token variant at its boundary payloads (F16 payloads = images of half patterns, "
+                     "the encoder being documented as lossy otherwise) plus seeded random tokens")
+    enc = run_lines(harness_bin("hcore"), eops)
+    dops = [f"tokdec {e.split(' ')[0]} #{t}" for t, e in zip(toks, enc) if split_enc(e) is not None]
+    s2 = Stream("token-roundtrip", "hcore", dops, judge=judge_token_roundtrip,
+                nontrivial=lambda op, impl: " end " in impl,
+                rule="tokdec <bytes the implementation wrote for the token after #>: exactly one token, equal (integers by numeric "
+                     "value, floats bitwise), position == number of bytes")
+    s1.shrinkable = s2.shrinkable = False
+    return [s1, s2]
+
+
 def streams(rng, tier):
     cps = corpus(rng, tier)
     ops, mops = enc_ops(cps)
@@ -136,7 +177,7 @@ def streams(rng, tier):
                 nontrivial=lambda op, impl: split_enc(impl) is not None, rule=RULE)
     s1.shrinkable = False
     enc = run_lines(harness_bin("hcore"), ops)
-    return [s1, dec_streams_from(cps, enc)]
+    return [s1, dec_streams_from(cps, enc)] + token_streams(rng, tier)
 
 
 # ----------------------------------------------------------------------------- helper for C02 / C04
@@ -165,6 +206,22 @@ def judge_mutated(op, impl, model, spec):
         if impl != f"ok {typegen.expected_decode_text(rt.gdesc, val)} {nbytes}":
             return "violation"
     return "ok" if impl == model or (NO_MODEL and model == "bad-op") else "violation"
+
+
+def canon_sorted(op, line):
+    """Stream canonicaliser for decode results on input that did not come from the encoder: BTreeSet / BTreeMap hold
+    their elements sorted and de-duplicated, the model (descriptor `seq` / `map`) prints them in input order."""
+    w = line.split(" ")
+    if len(w) != 3 or w[0] != "ok":
+        return line
+    rt = by_name().get(op.split(" ")[1])
+    if rt is None or not typegen.has_sorted_collection(rt.gdesc):
+        return line
+    try:
+        v = typegen.canon_collections(rt.gdesc, typegen.parse_value(rt.gdesc, w[1]))
+    except (ValueError, IndexError):
+        return line
+    return f"ok {typegen.show_value(rt.gdesc, v)} {w[2]}"
 
 
 def typed_mutation_streams(rng, tier, per_type=None, max_len=400):
@@ -196,18 +253,19 @@ def typed_mutation_streams(rng, tier, per_type=None, max_len=400):
     s1 = Stream("typed-prefix", "hcore", pops, model_ops=pmops, judge=judge_prefix,
                 nontrivial=lambda op, impl: impl.startswith("err eoi"),
                 rule="tdec <type> <strict prefix of a valid encoding of a value of that type>: must be `err eoi`")
-    s2 = Stream("typed-mutated", "hcore", mops_, model_ops=mmops, judge=judge_mutated,
+    s2 = Stream("typed-mutated", "hcore", mops_, model_ops=mmops, judge=judge_mutated, canon=canon_sorted,
                 rule="tdec <type> <valid encoding with one mutation: widened head, length +-1 / huge, definite<->indefinite, "
                      "major type swapped, break inserted, item substituted, bit flipped, byte appended>")
     s1.shrinkable = s2.shrinkable = False
     return [s1, s2]
 
 
-JUDGES = {"roundtrip-tenc": judge_enc, "roundtrip-tdec": judge_roundtrip, "typed-prefix": judge_prefix, "typed-mutated": judge_mutated}
+JUDGES = {"token-enc": judge_enc, "token-roundtrip": judge_token_roundtrip, "roundtrip-tenc": judge_enc, "roundtrip-tdec": judge_roundtrip, "typed-prefix": judge_prefix, "typed-mutated": judge_mutated}
 
 
 def replay_streams(rp):
     j = JUDGES.get(rp.get("stream"), judge_enc if rp["op"].startswith("tenc") else judge_roundtrip)
-    st = Stream("replay", rp.get("binary", "hcore"), [rp["op"]], model_ops=[rp.get("model_op") or rp["op"]], judge=j)
+    st = Stream("replay", rp.get("binary", "hcore"), [rp["op"]], model_ops=[rp.get("model_op") or rp["op"]], judge=j,
+                canon=canon_sorted if rp.get("stream") == "typed-mutated" else None)
     st.shrinkable = False
     return [st]
